@@ -371,3 +371,26 @@ func zzC05ClientDisconnect() {
 	vAssert(len(c.sessions) == 2, "C05.client.disconnect-idempotent")
 	vReach("end")
 }
+
+// callSubscriptionsListen: the one call that is issued and not awaited (its lifetime is the stream of notifications
+// that follows). It is issued exactly once; as long as the caller's context lives nothing else happens; when it ends,
+// the peer is told with one cancelled notice naming that call and the call is retired — never before, never twice.
+func zzC04Listen() {
+	rec := &zzConnRec{theCall: &jsonrpc2.AsyncCall{}}
+	zzCR = rec
+	if vBool("noticeUndeliverable") {
+		rec.notifyErr = errors.New("transport write failed")
+	}
+	base := context.WithValue(context.Background(), zzCtxKey{}, "routing")
+	ctx, cancel := context.WithCancel(base)
+	callSubscriptionsListen(ctx, &jsonrpc2.Connection{}, methodSubscriptionsListen, &SubscriptionsListenParams{})
+	vAssert(len(rec.events) == 1 && rec.events[0] == "call", "C04.listen.issued-exactly-once-and-not-awaited")
+	vAssert(vNumSpawned() == 1, "C04.listen.teardown-waits-on-its-own-goroutine")
+	vAssert(len(rec.notifies) == 0 && len(rec.retires) == 0, "C04.listen.nothing-cancelled-while-the-caller-lives")
+	cancel()
+	vRunSpawned(0)
+	vAssert(len(rec.retires) == 1 && rec.retires[0] == context.Canceled, "C05.cancelled-call-always-retired")
+	vAssert(len(rec.notifies) == 1, "C04.notice-sent-exactly-once")
+	zzCheckCancelNotice(rec.notifies[0], ctx)
+	vReach("end")
+}
